@@ -814,6 +814,7 @@ pub fn arch(c: &OpCase) -> ZkStdLibArch {
         "ff" | "big" => crate::ops_ff::arch(c),
         "ec" => crate::ops_ecc::arch(c),
         "h" => crate::ops_hash::arch(c),
+        "pi" => crate::ops_pi::arch(c),
         _ => ZkStdLibArch { nr_pow2range_cols: c.cols, ..ZkStdLibArch::default() },
     }
 }
@@ -824,6 +825,7 @@ pub fn body<L: Layouter<F>>(c: &OpCase, s: &ZkStdLib, l: &mut L, w: &[Value<F>],
         "ff" | "big" => crate::ops_ff::body(c, s, l, w, wb),
         "ec" => crate::ops_ecc::body(c, s, l, w, wb),
         "h" => crate::ops_hash::body(c, s, l, w),
+        "pi" => crate::ops_pi::body(c, s, l, w, wb),
         _ => {
             for p in &native_body(c, s, l, w)? {
                 s.constrain_as_public_input(l, p)?;
